@@ -33,11 +33,13 @@ KINDS = {
     'x.k1.k2.k3.k4.k5.k6.k7.k8.k9.k10.k11': dict(name='x', cls=['k%d' % i for i in range(1, 12)]),
 }
 SMALL = ['x', '.c', 'x#i.c[a=b d]', 'x{l1\nl2}', 'br/', 'div[a=b]']
+MID = ['x', '.c', '#i', 'x#i.c[a=b d]', 'x{t}', 'x{l1\nl2}', 'br/', 'div[a=b]']
+TINY = ['x', '.c', 'x{l1\nl2}', 'br/']
 SYNTAXES = ['haml', 'pug', 'slim']
 INDENTS = ['\t', '  ', '    ']
 BOUNDS = {
     # (elements, groups, repeaters, kind set, indents)
-    'quick': dict(sweeps=[(1, 1, 1, 'all', INDENTS), (2, 1, 1, 'all', INDENTS[:2]), (3, 0, 0, 'all', INDENTS[:1]), (4, 0, 0, 'small', INDENTS[:1])]),
+    'quick': dict(sweeps=[(1, 1, 1, 'all', INDENTS), (2, 1, 1, 'all', INDENTS[:2]), (3, 0, 0, 'mid', INDENTS[:1]), (4, 0, 0, 'tiny', INDENTS[:1])]),
     'thorough': dict(sweeps=[(2, 1, 1, 'all', INDENTS), (3, 1, 0, 'all', INDENTS), (3, 1, 1, 'small', INDENTS), (4, 0, 0, 'all', INDENTS[:1]),
                              (5, 0, 0, 'small', INDENTS[:1])]),
 }
@@ -199,7 +201,7 @@ def classify(exp, got, indent):
 
 def cases(tier, si):
     n, g, r, kset, indents = BOUNDS[tier]['sweeps'][si]
-    kinds = list(KINDS) if kset == 'all' else SMALL
+    kinds = {'all': list(KINDS), 'small': SMALL, 'mid': MID, 'tiny': TINY}[kset]
     for seq, _ in M.gen_seqs(n, g, r):
         for labels in itertools.product(kinds, repeat=n):
             yield seq, list(labels), indents
